@@ -253,7 +253,8 @@ class Builtins:
                 return Str((h.derive(f"[{I.show(idx)}]"),))
             return Str((Hole(tag, "char"),))
         if isinstance(base, Unknown):
-            return Unknown(f"{base.tag}[{I.show(idx)}]", {"recv": base, "index": idx})
+            return Unknown(f"{base.tag}[{I.show(idx)}]", {"recv": base, "index": idx,
+                                                          "expr": f"{I.expr_of(base)}[{I.expr_of(idx)}]"})
         if isinstance(base, (Extern, ClassV)):
             return base  # typing generics: List[int]
         raise I.unsupported(f"subscript of {base!r}", node, fr)
@@ -373,7 +374,10 @@ class Builtins:
             return
         if isinstance(it, Unknown):
             if I.run.assume(("truth", "u", it.tag + "#iter"), f"{it.tag} yields an element"):
-                yield ("abs", Unknown(f"{it.tag}[*]", {"elem_of": it, "not_none": True}), it.tag)
+                em = {"elem_of": it, "not_none": True, "expr": f"{I.expr_of(it)}[*]"}
+                if it.meta.get("elem_truthy"):
+                    em["truthy"] = True
+                yield ("abs", Unknown(f"{it.tag}[*]", em), it.tag)
             return
         raise I.unsupported(f"iteration over {it!r}", node, fr)
 
@@ -715,7 +719,9 @@ class Builtins:
             return ExcV(short, args)
         I.run.event("extern_call", name=name, args=args, kwargs=kwargs, node=node, recv=recv,
                     func=(fr.func.qualname if fr and fr.func else ""), module=(fr.module if fr else ""))
-        return Unknown(I.run.new_tag(f"{name}(...)"), {"extern": name, "args": args, "kwargs": kwargs})
+        argtxt = ", ".join([I.expr_of(a) for a in args] + [f"{k}={I.expr_of(v)}" for k, v in kwargs.items()])
+        return Unknown(I.run.new_tag(f"{name}(...)"), {"extern": name, "args": args, "kwargs": kwargs,
+                                                        "expr": f"{name}({argtxt})"})
 
     def value_method(self, recv: Value, meth: str, args: List[Value], kwargs: Dict[str, Value], node, fr) -> Value:
         I = self.I
@@ -1084,6 +1090,37 @@ class Builtins:
 
     def x_ABC___init__(self, args, kwargs, node, fr) -> Value:
         return NONE
+
+    # ---- regex / re --------------------------------------------------------
+    def _rx_call(self, name, args, kwargs, node, fr, meta):
+        I = self.I
+        I.run.event("extern_call", name=name, args=args, kwargs=kwargs, node=node, recv=None,
+                    func=(fr.func.qualname if fr and fr.func else ""), module=(fr.module if fr else ""))
+        argtxt = ", ".join([I.expr_of(a) for a in args] + [f"{k}={I.expr_of(v)}" for k, v in kwargs.items()])
+        m = {"extern": name, "args": args, "kwargs": kwargs, "expr": f"{name}({argtxt})"}
+        m.update(meta)
+        return Unknown(I.run.new_tag(f"{name}(...)"), m)
+
+    def x_regex_search(self, args, kwargs, node, fr) -> Value:
+        return self._rx_call("regex.search", args, kwargs, node, fr, {"match_or_none": True})
+
+    def x_regex_match(self, args, kwargs, node, fr) -> Value:
+        return self._rx_call("regex.match", args, kwargs, node, fr, {"match_or_none": True})
+
+    def x_regex_fullmatch(self, args, kwargs, node, fr) -> Value:
+        return self._rx_call("regex.fullmatch", args, kwargs, node, fr, {"match_or_none": True})
+
+    def x_regex_finditer(self, args, kwargs, node, fr) -> Value:
+        return self._rx_call("regex.finditer", args, kwargs, node, fr, {"truthy": True, "elem_truthy": True})
+
+    def x_re_match(self, args, kwargs, node, fr) -> Value:
+        return self._rx_call("re.match", args, kwargs, node, fr, {"match_or_none": True})
+
+    def x_re_search(self, args, kwargs, node, fr) -> Value:
+        return self._rx_call("re.search", args, kwargs, node, fr, {"match_or_none": True})
+
+    def x_re_fullmatch(self, args, kwargs, node, fr) -> Value:
+        return self._rx_call("re.fullmatch", args, kwargs, node, fr, {"match_or_none": True})
 
     # ---- stdlib ------------------------------------------------------------
     def x_itertools_permutations(self, args, kwargs, node, fr) -> Value:
